@@ -30,6 +30,7 @@ type replayGen struct {
 	decls []string
 	regs  map[string]bool
 	objs  map[string]bool
+	loops []string // candidate enumerations: "for _, name := range []T{...} {"
 	wf    []*Term // well-formedness of every reconstructed slice / string (always asserted)
 	small []*Term // size caps (first attempt only)
 }
@@ -235,7 +236,28 @@ func (g *replayGen) gen(t types.Type, v *Term, depth int) valFn {
 			return name, true
 		}
 	}
+	// interface parameters with a small set of standard implementations: every candidate is tried
+	if cands, ok := replayCandidates[t.String()]; ok {
+		name := fmt.Sprintf("cand%d", len(g.loops))
+		for path, nm := range cands.imports {
+			g.imports[path] = nm
+		}
+		g.loops = append(g.loops, fmt.Sprintf("for _, %s := range []%s{%s} {", name, cands.typ, strings.Join(cands.exprs, ", ")))
+		return func() (string, bool) { return name, true }
+	}
 	return bad("parameter type " + t.String() + " is not reconstructed from models")
+}
+
+type candSet struct {
+	typ     string
+	exprs   []string
+	imports map[string]string
+}
+
+// replayCandidates: values tried for interface-typed parameters that a model cannot describe.
+var replayCandidates = map[string]candSet{
+	"crypto/elliptic.Curve": {typ: "elliptic.Curve", exprs: []string{"elliptic.P224()", "elliptic.P256()", "elliptic.P384()", "elliptic.P521()"}, imports: map[string]string{"crypto/elliptic": "elliptic"}},
+	"io.Reader":             {typ: "io.Reader", exprs: []string{"rand.Reader"}, imports: map[string]string{"io": "io", "crypto/rand": "rand"}},
 }
 
 func (g *replayGen) bytesOf(s *sexp) ([]byte, bool) {
@@ -346,7 +368,7 @@ func (r *FnResult) Refute(e *Engine, i int, dir string) *ReplayResult {
 	}
 	var vals []*sexp
 	verdict := ""
-	for attempt := 0; attempt < 2; attempt++ {
+	for attempt := 0; attempt < 3; attempt++ {
 		extra := append(append([]*Term{}, g.wf...), g.small...)
 		if attempt == 1 {
 			extra = append([]*Term{}, g.wf...)
@@ -355,7 +377,8 @@ func (r *FnResult) Refute(e *Engine, i int, dir string) *ReplayResult {
 			// look for an input that requests an allocation the replay can observe (8 GiB and more)
 			extra = append(extra, c.f.Le(c.f.IntB(pow2(33)), o.Aux))
 		}
-		script := r.Script.NativeText(i, extra, g.queries)
+		// third attempt: without the quantified axioms (the solvers cannot build models for them)
+		script := r.Script.NativeTextOpt(i, extra, g.queries, attempt == 2)
 		var solver string
 		verdict, vals, solver = modelQuery(script, dir, sanitize(o.Name)+fmt.Sprintf("_%d", attempt), 10*time.Second)
 		res.Solver = solver
@@ -382,6 +405,9 @@ func (r *FnResult) Refute(e *Engine, i int, dir string) *ReplayResult {
 	var body strings.Builder
 	for _, d := range g.decls {
 		fmt.Fprintf(&body, "\t%s\n", d)
+	}
+	for _, l := range g.loops {
+		fmt.Fprintf(&body, "\t%s\n", l)
 	}
 	var names []string
 	for k, p := range ct.Params {
@@ -446,6 +472,9 @@ func (r *FnResult) Refute(e *Engine, i int, dir string) *ReplayResult {
 			fmt.Fprintf(&body, "\t_ = %s\n", n)
 		}
 		fmt.Fprintf(&body, "\tif !(%s) {\n\t\tfmt.Println(\"GOVC-REPLAY: CLAUSE-FALSE\")\n\t} else {\n\t\tfmt.Println(\"GOVC-REPLAY: CLAUSE-HOLDS\")\n\t}\n", rewriteExpr(text))
+	}
+	for range g.loops {
+		body.WriteString("\t}\n")
 	}
 	var src strings.Builder
 	fmt.Fprintf(&src, "//go:build verif\n\npackage %s\n\nimport (\n\t\"fmt\"\n\t\"testing\"\n", ct.PkgName)
@@ -513,6 +542,9 @@ func usedSelectors(src string) map[string]bool {
 
 // runReplay compiles the generated test into the package (through an overlay, nothing is written into the
 // repository) and runs the test binary under a memory limit.
+// replaySpecsDir is set by Load: <verif>/specs.
+var replaySpecsDir string
+
 func runReplay(repoDir, pkgDir, src, tmp string) string {
 	os.MkdirAll(tmp, 0o755)
 	work, err := os.MkdirTemp(tmp, "replay-")
@@ -523,6 +555,14 @@ func runReplay(repoDir, pkgDir, src, tmp string) string {
 	testFile := filepath.Join(work, "replay_test.go")
 	os.WriteFile(testFile, []byte(src), 0o644)
 	ov := map[string]map[string]string{"Replace": {filepath.Join(pkgDir, "zz_govc_replay_verif_test.go"): testFile}}
+	// the assumed dependency contracts of /verif/specs carry the specification functions the tagged
+	// contract files refer to: they are overlaid into internal/vspec exactly as the verifier's loader does
+	if specs, _ := filepath.Glob(filepath.Join(replaySpecsDir, "*.go")); len(specs) > 0 {
+		vdir := filepath.Join(repoDir, "internal", "vspec")
+		for _, sp := range specs {
+			ov["Replace"][filepath.Join(vdir, "zz_ext_"+strings.TrimSuffix(filepath.Base(sp), ".go")+"_verif.go")] = sp
+		}
+	}
 	ovb, _ := json.Marshal(ov)
 	ovFile := filepath.Join(work, "overlay.json")
 	os.WriteFile(ovFile, ovb, 0o644)
